@@ -33,8 +33,8 @@ fn denied(name: &str) -> bool {
 }
 
 /// value pool; `@array` etc. are replaced by live handles of a prepared session
-const POOL: [&str; 21] = [
-    "9223372036854775807", "@selfarray", "@selfmap", "a=b", "", "a", "a b", "é😀", "-1", "0", "1", "2.5", "99999999999999999999", "@array", "@map", "@set", "@bytes", "@released", "-r", "a\nb", "--FLAG",
+const POOL: [&str; 23] = [
+    "9223372036854775807", "@selfarray", "@selfmap", "@outercycle", "j", "a=b", "", "a", "a b", "é😀", "-1", "0", "1", "2.5", "99999999999999999999", "@array", "@map", "@set", "@bytes", "@released", "-r", "a\nb", "--FLAG",
 ];
 const FLAGS: [&str; 4] = ["--copy", "--prefix", "--collection", "--file"];
 
@@ -48,6 +48,8 @@ struct Prepared {
     /// an array that contains its own handle, and a map whose child array points back to the map
     selfarray: String,
     selfmap: String,
+    /// an array holding a map that holds itself: a cycle that does not pass through the root
+    outercycle: String,
 }
 
 fn prepare() -> Prepared {
@@ -68,9 +70,38 @@ fn prepare() -> Prepared {
     let selfmap = get(s.call("map", &[]));
     let child = get(s.call("array", &[&selfmap]));
     s.call("map_put", &[&selfmap, "children", &child]);
+    let inner = get(s.call("map", &[]));
+    s.call("map_put", &[&inner, "self", &inner]);
+    let outercycle = get(s.call("array", &[&inner]));
     s.variables.insert("a".into(), "value".into());
     s.variables.insert("scope::x".into(), "1".into());
-    Prepared { s, array, map, set, bytes, released, selfarray, selfmap }
+    // `j` names a decoded JSON array (the variable layout of json_decode) whose length is huge
+    s.variables.insert("j.length".into(), "99999999999".into());
+    s.variables.insert("j[0]".into(), "first".into());
+    Prepared { s, array, map, set, bytes, released, selfarray, selfmap, outercycle }
+}
+
+/// The working directory of every command case: emptied and given the same small tree {file `a`,
+/// file `0`, directory `1` holding the file `inner`}, so that path-like pool values name existing
+/// files and directories and no case sees what an earlier case left behind.
+fn reset_work(work: &std::path::Path) {
+    if let Ok(rd) = std::fs::read_dir(work) {
+        for e in rd.flatten() {
+            let p = e.path();
+            let is_dir = e.file_type().map(|t| t.is_dir()).unwrap_or(false);
+            let r = if is_dir { std::fs::remove_dir_all(&p) } else { std::fs::remove_file(&p) };
+            if r.is_err() {
+                // a case may have taken permissions away
+                use std::os::unix::fs::PermissionsExt;
+                let _ = std::fs::set_permissions(&p, std::fs::Permissions::from_mode(0o700));
+                let _ = if is_dir { std::fs::remove_dir_all(&p) } else { std::fs::remove_file(&p) };
+            }
+        }
+    }
+    let _ = std::fs::write(work.join("a"), "content of a\n");
+    let _ = std::fs::write(work.join("0"), "");
+    let _ = std::fs::create_dir(work.join("1"));
+    let _ = std::fs::write(work.join("1").join("inner"), "inner\n");
 }
 
 fn resolve(p: &Prepared, v: &str, flag: &str) -> String {
@@ -82,6 +113,7 @@ fn resolve(p: &Prepared, v: &str, flag: &str) -> String {
         "@released" => p.released.clone(),
         "@selfarray" => p.selfarray.clone(),
         "@selfmap" => p.selfmap.clone(),
+        "@outercycle" => p.outercycle.clone(),
         "--FLAG" => flag.to_string(),
         o => o.to_string(),
     }
@@ -96,7 +128,8 @@ fn class_of_arg(v: &str) -> &'static str {
         "-1" => "negative",
         "99999999999999999999" | "9223372036854775807" => "huge-number",
         "2.5" => "decimal",
-        "@selfarray" | "@selfmap" => "self-containing-collection",
+        "@selfarray" | "@selfmap" | "@outercycle" => "self-containing-collection",
+        "j" => "name-of-huge-json-array",
         x if x.starts_with('@') => "handle",
         x if x.starts_with('-') => "flag",
         "0" | "1" => "small-number",
@@ -213,6 +246,7 @@ pub fn worker(w: &mut Worker) {
                 let shown: Vec<&str> = tuple.iter().map(|&i| if POOL[i] == "--FLAG" { flag } else { POOL[i] }).collect();
                 let cj = json!({"kind": "command", "command": name, "args": shown});
                 w.begin(|| cj.clone());
+                reset_work(&work);
                 let mut p = prepare();
                 let args: Vec<String> = tuple.iter().map(|&i| resolve(&p, POOL[i], flag)).collect();
                 let a: Vec<&str> = args.iter().map(|s| s.as_str()).collect();
@@ -238,6 +272,7 @@ pub fn worker(w: &mut Worker) {
                         let shown: Vec<&str> = vec![flag, POOL[i], POOL[j]];
                         let cj = json!({"kind": "command", "command": name, "args": shown});
                         w.begin(|| cj.clone());
+                        reset_work(&work);
                         let mut p = prepare();
                         let args: Vec<String> = shown.iter().map(|v| resolve(&p, v, flag)).collect();
                         let a: Vec<&str> = args.iter().map(|s| s.as_str()).collect();
@@ -274,6 +309,7 @@ pub fn worker(w: &mut Worker) {
         }
         let cj = json!({"kind": "pair", "first": [c1, a1], "second": [c2, a2]});
         w.begin(|| cj.clone());
+        reset_work(&work);
         let mut p = prepare();
         let r1: Vec<String> = a1.iter().map(|v| resolve(&p, v, "")).collect();
         let r2: Vec<String> = a2.iter().map(|v| resolve(&p, v, "")).collect();
@@ -414,6 +450,7 @@ pub fn replay(case: &Value) -> Result<String, String> {
             let dir = scratch_root().join(format!("replay-c07-{}", std::process::id()));
             let _ = std::fs::create_dir_all(&dir);
             let _ = std::env::set_current_dir(&dir);
+            reset_work(&dir);
             let o = p.s.call_out(case["command"].as_str().unwrap_or(""), &a, Some("out"));
             Ok(format!("{:?}", o))
         }
@@ -442,7 +479,7 @@ pub fn crash_sig(case: &Value, kind: &str) -> String {
     }
 }
 
-pub const RULE: &str = "(a) every registered command of the standard library (discovered at run time; excluded: read, sleep, exec, spawn, exit, watchdog, everything under std::net, test_directory/test_file, cd, temp_file/temp_dir) x every argument tuple up to the arity bound from a 21-value pool {empty, a, 'a b', multi-byte, -1, 0, 1, 2.5, 20-digit number, i64::MAX, live array/map/set/byte-array handle, an array containing its own handle, a map whose child array points back to it, released handle, -r, text with a line break, a flag (--copy/--prefix/--collection/--file)}, each on a freshly prepared context in a scratch working directory (the quick tier adds every 'flag operand operand' triple); (b) 15 two-step histories (use after release, push/pop --copy of undefined and repeated names, removed or shadowed commands used by library scripts); (c) every script of up to n lines over 24 awkward lines (unmatched end/else/elseif/return, fn without name or end, for without array, goto to a missing label, goto loops, calls of undefined functions, ...) run with every command counted and the halt flag raised after 400 command entries; (d) a file that includes itself and a two-file include cycle; (e) for-in loops whose body clears, pops, removes from, releases, grows, replaces or unsets the array being iterated (sizes 0..3, three body shapes). Oracle: control returns with Ok or Err; a panic is caught and reported; an abort (stack overflow) or a hang (no return within 4 s) kills the worker process, is pinned to the case in flight by the supervisor and reported";
+pub const RULE: &str = "(a) every registered command of the standard library (discovered at run time; excluded: read, sleep, exec, spawn, exit, watchdog, everything under std::net, test_directory/test_file, cd, temp_file/temp_dir) x every argument tuple up to the arity bound from a 23-value pool {empty, a, 'a b', j (the name of a decoded JSON array variable set whose length entry is 99999999999), multi-byte, -1, 0, 1, 2.5, 20-digit number, i64::MAX, live array/map/set/byte-array handle, an array containing its own handle, a map whose child array points back to it, an array holding a map that holds itself (a cycle not through the root), released handle, -r, text with a line break, a flag (--copy/--prefix/--collection/--file)}, each on a freshly prepared context in a scratch working directory that is reset before every case to the tree {file a, file 0, directory 1 with a file} (the quick tier adds every 'flag operand operand' triple); (b) 15 two-step histories (use after release, push/pop --copy of undefined and repeated names, removed or shadowed commands used by library scripts); (c) every script of up to n lines over 24 awkward lines (unmatched end/else/elseif/return, fn without name or end, for without array, goto to a missing label, goto loops, calls of undefined functions, ...) run with every command counted and the halt flag raised after 400 command entries; (d) a file that includes itself and a two-file include cycle; (e) for-in loops whose body clears, pops, removes from, releases, grows, replaces or unsets the array being iterated (sizes 0..3, three body shapes). Oracle: control returns with Ok or Err; a panic is caught and reported; an abort (stack overflow) or a hang (no return within 4 s) kills the worker process, is pinned to the case in flight by the supervisor and reported";
 pub const ASSUMPTIONS: &[&str] = &["values that would request huge allocations are not in the pool (allocation failure aborts by design of Rust)", "loop constructs are allowed to loop: they are ended through the halt flag, which is the embedder's documented way"];
 pub const EXHAUSTIVE: bool = true;
 pub const WALL_CAP_S: (u64, u64) = (58, 1700);
